@@ -55,6 +55,8 @@ func (o mpOp) String() string {
 		return "delete the bucket and create it again"
 	case "delete-bucket-refused":
 		return "delete the bucket (refused: not empty)"
+	case "create-bucket-refused":
+		return "create the bucket (refused: exists)"
 	}
 	return o.kind
 }
@@ -302,6 +304,10 @@ func (s *mpSys) Ops() []engine.Op {
 	if !s.w.Cfg.Kind.IsSingle() && len(s.m.Objects) > 0 && len(s.m.Uploads) > 0 {
 		ops = append(ops, mpOp{kind: "delete-bucket-refused"})
 	}
+	// ... and so does creating the bucket that exists already
+	if !s.w.Cfg.Kind.IsSingle() && len(s.m.Uploads) > 0 {
+		ops = append(ops, mpOp{kind: "create-bucket-refused"})
+	}
 	// multipart requests whose upload id names no upload: empty, or in a pair the
 	// query parser cannot read (a bad escape, a raw ';'), or given twice
 	if s.m.Objects[s.u.keys[0]] != nil {
@@ -373,6 +379,12 @@ func (s *mpSys) apply(op engine.Op) (string, *engine.Violation) {
 		r := s.w.Do(drv.Req{Method: "DELETE", Path: "/" + s.bucket})
 		if r.Status != 409 || r.Panic != "" {
 			return respSig(r), &engine.Violation{Sig: "FOREIGN", Msg: "delete of a bucket that holds an object: " + r.Short()}
+		}
+		return respSig(r), nil // Check: objects, pending uploads and their parts are as they were
+	case "create-bucket-refused":
+		r := s.w.Do(drv.Req{Method: "PUT", Path: "/" + s.bucket})
+		if r.Status != 409 || r.Panic != "" {
+			return respSig(r), &engine.Violation{Sig: "FOREIGN", Msg: "create of a bucket that exists: " + r.Short()}
 		}
 		return respSig(r), nil // Check: objects, pending uploads and their parts are as they were
 	case "recreate-bucket":
